@@ -72,7 +72,16 @@ def generate(rng, tier="quick"):
         ops.append(twin)
     if not any(o["op"] == "save" for o in ops):
         ops.append({"op": "save", "write_data": True, "write_axes": True, "include": None, "exclude": None})
-    return {"format": 1, "property": PROP, "env": wl.gen_env(rng), "table": tbl, "config": cfg, "frontend": fe, "ops": ops, "group_results": rng.chance(0.2)}
+    scn = {"format": 1, "property": PROP, "env": wl.gen_env(rng), "table": tbl, "config": cfg, "frontend": fe, "ops": ops, "group_results": rng.chance(0.2)}
+    if rng.chance(0.15):
+        # a user-written check given as a Call whose function is a bound method of a configured object; the caller
+        # names it again as obj.method in the filters (equal to, but not the same object as, the one in the Call)
+        scn["user_bound"] = {"sid": rng.pick(names), "tag": rng.randint(0, 4)}
+        for o in ops:
+            if o["op"] == "save" and rng.chance(0.6):
+                k = rng.pick(("include", "exclude"))
+                o[k] = (o[k] or []) + [{"fn": "user_bound"}]
+    return scn
 
 
 def resolve_filter(f):
@@ -80,6 +89,9 @@ def resolve_filter(f):
         return None
     out = []
     for x in f:
+        if x.get("fn") == "user_bound":
+            out.append(seams.USER_LIMITS.limits_test)  # a fresh bound-method object every time it is written
+            continue
         if "fn" in x:
             m, t = x["fn"].split(".")
             mod = import_module(f"ioos_qc.{m}")
@@ -142,7 +154,16 @@ def execute(scn):
 
     stream, closer = pl.make_stream(scn["frontend"], tbl)
     try:
-        store = PandasStore(tee(stream.run(pl.build_config(cfg))))
+        config = pl.build_config(cfg)
+        if scn.get("user_bound"):
+            from functools import partial
+
+            from ioos_qc.config import Call, Context
+
+            ub = scn["user_bound"]
+            config.add([Call(stream_id=ub["sid"], call=partial(seams.USER_LIMITS.limits_test, (), tag=ub["tag"]), context=Context())])
+            bump("bound_method_test_function")
+        store = PandasStore(tee(stream.run(config)))
     except Exception as e:  # noqa: BLE001
         V.append(violation(PROP, "a", "store_init", exc_signature(e), f"PandasStore(...) raised: {e!r}"))
         return done(scn, V, stats, [], [])
